@@ -59,17 +59,19 @@ def Property.primaryKey (p : Property) : Bool :=
 /-- required as declared; a primary key is always required -/
 def Property.effRequired (p : Property) : Bool := p.required || p.primaryKey
 
-/-- whether the compiled field distinguishes "unset" from "zero": message fields and
-explicitly optional scalars do; plain scalars and arrays do not. -/
+/-- whether the compiled field distinguishes "unset" from "zero": only message fields do.
+(`? type` sets `proto3_optional` but the compiler creates no synthetic oneof, so the linked field
+has no presence — recorded as open finding `optional-field-without-presence`; plain scalars and
+arrays never have presence.) -/
 def Property.hasPresence (p : Property) : Bool :=
   match p.schema with
-  | .single s => s.isMessage || p.explicitlyOptional
+  | .single s => s.isMessage
   | .array _ _ _ => false
 
 /-- the meaning of the whole declaration for one candidate field value -/
 def j5Accepts (M : Matcher) (p : Property) (v : FieldVal) : Bool :=
   match p.schema, v with
-  | .single s, .absent => !p.effRequired
+  | .single _, .absent => !p.effRequired
   | .single s, .single x =>
     -- without presence the zero value is "not there"
     (!p.effRequired || p.hasPresence || !x.isZero) && j5Item M s x
@@ -128,7 +130,8 @@ def WFRules (p : Property) : Bool :=
   schemaWF p.schema.item &&
   !(p.explicitlyOptional && p.effRequired) &&
   (match p.schema with
-   | .array s (some r) _ => !(r.uniqueItems == some true && s.isMessage)
+   | .array s (some r) _ => !(r.uniqueItems == some true && s.isMessage) && !p.explicitlyOptional
+   | .array _ none _ => !p.explicitlyOptional
    | _ => true)
 
 end J5V.Rules
